@@ -100,13 +100,20 @@ def alias_maps(rng, count):
     return out
 
 
+def make_span(case):
+    """Six periods: years, or text labels spelled like the model's variables and aliases (a period label is never an alias)."""
+    if case.get('span_kind') == 'names-as-labels':
+        return ['GDP', 'Y', 'Out', 'C', 'Cons', 'Wl']
+    return range(2000, 2006)
+
+
 def construct(ctx, A, kwargs, case):
     files = [os.path.join(common.REPO, 'fsic/extensions/common.py')]
     try:
         with mon.StepBudget(files, BUDGET) as b:
             with warnings.catch_warnings():
                 warnings.simplefilter('ignore')
-                m = A(range(2000, 2006), **kwargs)
+                m = A(make_span(case), **kwargs)
         ctx.count('constructors_under_budget')
         ctx.count('constructor_steps', b.steps)
         return m
@@ -171,7 +178,7 @@ def do(f, *a):
 
 
 def check_map(ctx, Canon, aliases, preferred, rng, steps):
-    case = {'aliases': aliases, 'preferred': preferred}
+    case = {'aliases': aliases, 'preferred': preferred, 'span_kind': rng.choice(['years', 'years', 'names-as-labels'])}
     has_cycle = any(resolve(aliases, a) is None for a in aliases)
     if has_cycle:
         # cyclic maps name no variable at all; the statement quantifies over chains, many-to-one maps and self-maps only
@@ -217,7 +224,7 @@ def check_map(ctx, Canon, aliases, preferred, rng, steps):
     if has_cycle:
         ctx.count('cyclic_maps_terminated')
         return
-    twin = Canon(range(2000, 2006), strict=strict, **init_vals)
+    twin = Canon(make_span(case), strict=strict, **init_vals)
     span = list(twin.span)
     hist = [('init', dict(chosen))]
     case['history'] = hist
@@ -252,7 +259,7 @@ def check_map(ctx, Canon, aliases, preferred, rng, steps):
     # ---- an alias declared for a variable that only comes into being later (add_variable after construction) ------------
     if 'Wl' in aliases_late:
         r = [do(lambda: m.add_variable('Znew', 2.0)), do(lambda: twin.add_variable('Znew', 2.0))]
-        steps_late = [(lambda o, nm: o.__setitem__(nm, 7.5)), (lambda o, nm: o.__setitem__((nm, 2001), 3.0)), (lambda o, nm: setattr(o, nm, [1.0] * 6)),
+        steps_late = [(lambda o, nm: o.__setitem__(nm, 7.5)), (lambda o, nm: o.__setitem__((nm, list(o.span)[1]), 3.0)), (lambda o, nm: setattr(o, nm, [1.0] * 6)),
                       (lambda o, nm: o.replace_values(**{nm: 4.25})), (lambda o, nm: float(o[nm][2])), (lambda o, nm: float(getattr(o, nm)[3]))]
         for k, f in enumerate(steps_late):
             ra = do(lambda: f(m, 'Wl' if k % 2 == 0 else 'Wl2'))
